@@ -9,6 +9,7 @@ package libaudit
 
 import (
 	"errors"
+	"sync"
 	"syscall"
 )
 
@@ -38,8 +39,15 @@ var vNet struct {
 	closed   []int
 }
 
+var vNetMu sync.Mutex
+
 func vSysSendto(fd int, p []byte, flags int, to syscall.Sockaddr) error {
-	vNet.sent = append(vNet.sent, vDatagram{fd: fd, data: append([]byte(nil), p...), flags: flags, to: to})
+	// the kernel copies the datagram at some point during the call: a scheduling point first
+	vYield()
+	d := vDatagram{fd: fd, data: append([]byte(nil), p...), flags: flags, to: to}
+	vNetMu.Lock()
+	vNet.sent = append(vNet.sent, d)
+	vNetMu.Unlock()
 	return nil
 }
 
@@ -122,6 +130,18 @@ func VH_NetlinkSendConcurrent() {
 		})
 	}
 	vJoin()
+	// every returned sequence number is on the wire exactly once
+	for t := 0; t < threads; t++ {
+		for _, seq := range res[t] {
+			var n uint64
+			for _, d := range vNet.sent {
+				if len(d.data) >= 16 {
+					n += vIf(vGet32(d.data[8:]) == seq, 1, 0) // counted without branching
+				}
+			}
+			vAssert(n == 1, "C18/concurrent-returned-sequence-not-on-the-wire-once")
+		}
+	}
 	var all []uint32
 	for t := 0; t < threads; t++ {
 		vAssert(len(res[t]) == 2, "C18/concurrent-send-lost")
